@@ -294,6 +294,8 @@ where
                         if let Some(mut data) = data {
                             payload.append(&mut data);
                         }
+                        // (a frame with more data than fits into a DLT msg is truncated)
+                        payload.truncate((u16::MAX - self.len_wo_payload) as usize);
 
                         let index = self.index;
                         self.index += 1;
@@ -385,6 +387,8 @@ where
                         if let Some(mut data) = data {
                             payload.append(&mut data);
                         }
+                        // (a frame with more data than fits into a DLT msg is truncated)
+                        payload.truncate((u16::MAX - self.len_wo_payload) as usize);
                         // return a DltMessage
                         let index = self.index;
                         self.index += 1;
